@@ -443,24 +443,48 @@ impl BiscuitBuilder {
     }
 
     fn add_fact(&mut self, fact: &str) -> Result<(), biscuit_auth::error::Token> {
-        let mut inner = self.0.take().unwrap();
-        inner = inner.fact(fact)?;
-        self.0 = Some(inner);
-        Ok(())
+        let inner = self.0.take().unwrap();
+        // the builder methods consume `self`: keep the previous state when the item is refused
+        match inner.clone().fact(fact) {
+            Ok(inner) => {
+                self.0 = Some(inner);
+                Ok(())
+            }
+            Err(e) => {
+                self.0 = Some(inner);
+                Err(e)
+            }
+        }
     }
 
     fn add_rule(&mut self, rule: &str) -> Result<(), biscuit_auth::error::Token> {
-        let mut inner = self.0.take().unwrap();
-        inner = inner.rule(rule)?;
-        self.0 = Some(inner);
-        Ok(())
+        let inner = self.0.take().unwrap();
+        // the builder methods consume `self`: keep the previous state when the item is refused
+        match inner.clone().rule(rule) {
+            Ok(inner) => {
+                self.0 = Some(inner);
+                Ok(())
+            }
+            Err(e) => {
+                self.0 = Some(inner);
+                Err(e)
+            }
+        }
     }
 
     fn add_check(&mut self, check: &str) -> Result<(), biscuit_auth::error::Token> {
-        let mut inner = self.0.take().unwrap();
-        inner = inner.check(check)?;
-        self.0 = Some(inner);
-        Ok(())
+        let inner = self.0.take().unwrap();
+        // the builder methods consume `self`: keep the previous state when the item is refused
+        match inner.clone().check(check) {
+            Ok(inner) => {
+                self.0 = Some(inner);
+                Ok(())
+            }
+            Err(e) => {
+                self.0 = Some(inner);
+                Err(e)
+            }
+        }
     }
 }
 #[no_mangle]
@@ -813,24 +837,48 @@ impl BlockBuilder {
     }
 
     fn add_fact(&mut self, fact: &str) -> Result<(), biscuit_auth::error::Token> {
-        let mut inner = self.0.take().unwrap();
-        inner = inner.fact(fact)?;
-        self.0 = Some(inner);
-        Ok(())
+        let inner = self.0.take().unwrap();
+        // the builder methods consume `self`: keep the previous state when the item is refused
+        match inner.clone().fact(fact) {
+            Ok(inner) => {
+                self.0 = Some(inner);
+                Ok(())
+            }
+            Err(e) => {
+                self.0 = Some(inner);
+                Err(e)
+            }
+        }
     }
 
     fn add_rule(&mut self, rule: &str) -> Result<(), biscuit_auth::error::Token> {
-        let mut inner = self.0.take().unwrap();
-        inner = inner.rule(rule)?;
-        self.0 = Some(inner);
-        Ok(())
+        let inner = self.0.take().unwrap();
+        // the builder methods consume `self`: keep the previous state when the item is refused
+        match inner.clone().rule(rule) {
+            Ok(inner) => {
+                self.0 = Some(inner);
+                Ok(())
+            }
+            Err(e) => {
+                self.0 = Some(inner);
+                Err(e)
+            }
+        }
     }
 
     fn add_check(&mut self, check: &str) -> Result<(), biscuit_auth::error::Token> {
-        let mut inner = self.0.take().unwrap();
-        inner = inner.check(check)?;
-        self.0 = Some(inner);
-        Ok(())
+        let inner = self.0.take().unwrap();
+        // the builder methods consume `self`: keep the previous state when the item is refused
+        match inner.clone().check(check) {
+            Ok(inner) => {
+                self.0 = Some(inner);
+                Ok(())
+            }
+            Err(e) => {
+                self.0 = Some(inner);
+                Err(e)
+            }
+        }
     }
 }
 
@@ -997,31 +1045,63 @@ pub unsafe extern "C" fn block_builder_free(_builder: Option<Box<BlockBuilder>>)
 
 impl AuthorizerBuilder {
     fn add_fact(&mut self, fact: &str) -> Result<(), biscuit_auth::error::Token> {
-        let mut inner = self.0.take().unwrap();
-        inner = inner.fact(fact)?;
-        self.0 = Some(inner);
-        Ok(())
+        let inner = self.0.take().unwrap();
+        // the builder methods consume `self`: keep the previous state when the item is refused
+        match inner.clone().fact(fact) {
+            Ok(inner) => {
+                self.0 = Some(inner);
+                Ok(())
+            }
+            Err(e) => {
+                self.0 = Some(inner);
+                Err(e)
+            }
+        }
     }
 
     fn add_rule(&mut self, rule: &str) -> Result<(), biscuit_auth::error::Token> {
-        let mut inner = self.0.take().unwrap();
-        inner = inner.rule(rule)?;
-        self.0 = Some(inner);
-        Ok(())
+        let inner = self.0.take().unwrap();
+        // the builder methods consume `self`: keep the previous state when the item is refused
+        match inner.clone().rule(rule) {
+            Ok(inner) => {
+                self.0 = Some(inner);
+                Ok(())
+            }
+            Err(e) => {
+                self.0 = Some(inner);
+                Err(e)
+            }
+        }
     }
 
     fn add_check(&mut self, check: &str) -> Result<(), biscuit_auth::error::Token> {
-        let mut inner = self.0.take().unwrap();
-        inner = inner.check(check)?;
-        self.0 = Some(inner);
-        Ok(())
+        let inner = self.0.take().unwrap();
+        // the builder methods consume `self`: keep the previous state when the item is refused
+        match inner.clone().check(check) {
+            Ok(inner) => {
+                self.0 = Some(inner);
+                Ok(())
+            }
+            Err(e) => {
+                self.0 = Some(inner);
+                Err(e)
+            }
+        }
     }
 
     fn add_policy(&mut self, policy: &str) -> Result<(), biscuit_auth::error::Token> {
-        let mut inner = self.0.take().unwrap();
-        inner = inner.policy(policy)?;
-        self.0 = Some(inner);
-        Ok(())
+        let inner = self.0.take().unwrap();
+        // the builder methods consume `self`: keep the previous state when the item is refused
+        match inner.clone().policy(policy) {
+            Ok(inner) => {
+                self.0 = Some(inner);
+                Ok(())
+            }
+            Err(e) => {
+                self.0 = Some(inner);
+                Err(e)
+            }
+        }
     }
 }
 
